@@ -1,6 +1,7 @@
 #!/bin/sh
 # usage: trymut.sh <patch> <checks...> : apply a seeded change to /repo, run the quick checks, undo it
 P=$1; shift
+[ -z "$(git -C /repo status --porcelain)" ] || { echo "/repo has uncommitted changes: refusing (the undo step would discard them)"; exit 2; }
 git -C /repo apply "$P" || { echo "patch does not apply"; exit 2; }
 for c in "$@"; do
   /verif/check $c --tier quick 2>&1 | grep -E "^(C[0-9]+ quick|VIOLATION|HARNESS|violation)" | cut -c1-330
